@@ -73,6 +73,9 @@ func genC03Plan(r *sim.Rng, tier string) AdmPlan {
 			lane = append(lane, AdmOp{Kind: "stop", Actor: i, Reset: r.Bool(0.3)})
 		case 1:
 			lane = append(lane, AdmOp{Kind: "kick", Actor: i})
+			if pl.Actors[i].Kind == "rtsp_pub" && r.Bool(0.5) {
+				lane[len(lane)-1] = AdmOp{Kind: "reannounce", Actor: i}
+			}
 		}
 		lanes = append(lanes, lane)
 	}
